@@ -136,6 +136,10 @@ def shrink(plugin, drv, fail, budget_s=60):
     """delta-debug a failing case, keeping the same failure kind"""
     t0 = time.time()
     best = fail
+    # a smaller case must be the *same* failure: same kind and same known-finding classification, so
+    # that a new violation is never minimised into a recorded one (and dropped)
+    cls = getattr(plugin, 'classify', None)
+    key0 = cls(fail['case'], fail['impl'], fail) if cls else None
     improved = True
     while improved and time.time() - t0 < budget_s:
         improved = False
@@ -151,7 +155,10 @@ def shrink(plugin, drv, fail, budget_s=60):
             except Exception:
                 continue
             if kind == best['kind']:
-                best = {'kind': kind, 'why': why, 'case': cand, 'impl': impl, 'model': resp.get('model')}
+                cand_f = {'kind': kind, 'why': why, 'case': cand, 'impl': impl, 'model': resp.get('model')}
+                if cls and cls(cand, impl, cand_f) != key0:
+                    continue
+                best = cand_f
                 improved = True
                 break
     return best
